@@ -6,7 +6,7 @@ from fractions import Fraction
 import numpy as np
 from hypothesis import strategies as st
 
-from twv.runner import Sub, Violation
+from twv.runner import Sub, Violation, canon
 from twv.gens import fl, series, xs, ys
 
 import traffic_weaver.process as process
@@ -52,6 +52,29 @@ LEVEL_NOTE = ("trusts the ~40 lines of oracle code in this module and the stated
               "to the generated family")
 
 RTOL = 1e-12
+
+# ---- history-dependent faults ----------------------------------------------------------------------------------------
+# A library that keeps state between calls can answer the same case differently the second time; Hypothesis
+# re-executes a failing case and would call the verdict "flaky" (a harness error).  A wrong answer for a valid
+# input is a violation however often it can be reproduced, so the first verdict for a case is kept for the rest of
+# the process (not during --replay, which must show what the case does in isolation).
+_VERDICTS = {}
+
+
+def sticky(body):
+    def wrapped(ctx, case):
+        key = None if ctx.replaying else canon(case)
+        if key in _VERDICTS:
+            raise _VERDICTS[key]     # the very same exception object: same origin for Hypothesis, same message
+        try:
+            body(ctx, case)
+        except Exception as e:       # noqa: B902  Violation, or an exception out of the library (a violation too)
+            if key is not None:
+                _VERDICTS[key] = e
+            raise
+    wrapped.__name__ = body.__name__
+    return wrapped
+
 
 
 # ---- trend family (data -> callable, magnitude) ------------------------------------------------------------------
@@ -657,20 +680,204 @@ def weaver_normalize_body(ctx, case):
     ctx.record(case, cls, nontrivial=True)
 
 
+# ---- 7. one callable, several axes (no state may leak between calls) -------------------------------------------------------
+
+@st.composite
+def axis_group(draw, ctx):
+    """2..4 axes of equal length with identical first and last abscissa but different interior spacing (the first
+    is uniform), each with two ordinate vectors; optionally one more axis of another length / other end points."""
+    n = draw(st.integers(3, ctx.pick(16, 40)))
+    x0 = draw(st.one_of(st.sampled_from([0.0, 1.0, -3.0, 5.0]), fl(-100.0, 100.0)))
+    span = draw(st.one_of(st.sampled_from([1.0, float(n - 1), 10.0]), fl(0.5, 200.0)))
+    xl = x0 + span
+    grids = [[x0 + span * k / (n - 1) for k in range(n - 1)] + [xl]]
+    for _ in range(draw(st.integers(1, 3))):
+        g = draw(st.lists(fl(0.05, 1.0), min_size=n - 1, max_size=n - 1))
+        tot = math.fsum(g)
+        acc, x = 0.0, [x0]
+        for v in g[:-1]:
+            acc += v
+            x.append(x0 + span * (acc / tot))
+        x.append(xl)
+        grids.append(x)
+    axes = []
+    for i, x in enumerate(grids):
+        if not all(b > a for a, b in zip(x[:-1], x[1:])):
+            x = list(grids[0])                      # cannot happen for the bounds above; keeps the input valid anyway
+        axes.append(dict(x=[float(v) for v in x], kind="uniform" if i == 0 else "nonuniform",
+                         ys=[draw(ys(n))["y"], draw(ys(n))["y"]]))
+    if draw(st.sampled_from([0, 0, 1])):
+        m = draw(st.integers(2, ctx.pick(16, 40)))
+        xd = draw(xs(m, allow_int=False))
+        axes.append(dict(x=xd["x"], kind="other", ys=[draw(ys(m))["y"], draw(ys(m))["y"]]))
+    return axes
+
+
+_chain_pre = st.one_of(
+    st.none(),
+    st.builds(lambda v: dict(op="shift_x", v=v), st.one_of(st.sampled_from([1.0, -2.5, 10]), fl(-50.0, 50.0))),
+    st.builds(lambda v: dict(op="scale_x", v=v), st.one_of(st.sampled_from([2, 0.5, 3.0]), fl(0.1, 10.0))),
+    st.builds(lambda v: dict(op="shift_y", v=v), fl(-10.0, 10.0)))
+
+
+@st.composite
+def same_callable_case(draw, ctx):
+    axes = draw(axis_group(ctx))
+    steps = []
+    for _ in range(draw(st.integers(3, 8))):
+        if steps and draw(st.sampled_from([0, 1, 0, 0])):
+            steps.append(dict(steps[-1], repeat=True))          # same callable, same objects, once more
+            continue
+        api = draw(st.sampled_from(["trend", "trend", "linear_trend", "weaver", "weaver_chain"]))
+        step = dict(api=api, axis=draw(st.integers(0, len(axes) - 1)), y=draw(st.integers(0, 1)),
+                    normalized=draw(st.booleans()), via=draw(st.sampled_from(["shared", "fresh", "shared", "list"])),
+                    repeat=False)
+        if api == "weaver_chain":
+            step["pre"] = draw(_chain_pre)
+        steps.append(step)
+    return dict(axes=axes, steps=steps, f=draw(trend_spec(allow_zero=False)), a=draw(_coef_nz))
+
+
+def same_callable_body(ctx, case):
+    axes, f_spec = case["axes"], case["f"]
+    f = make_fun(f_spec)                         # ONE callable object for the whole sequence
+    lin_spec = dict(kind="linear", a=case["a"])
+    shared = {}                                  # length -> persistent caller-side arrays, edited in place
+    chain = None                                 # one long-lived Weaver that gets the same callable repeatedly
+    cls = set()
+    used = set()
+    for k, s in enumerate(case["steps"]):
+        api, normalized = s["api"], s["normalized"]
+        what = f"step {k} ({api}, axis {s['axis']}, y {s['y']}, normalized={normalized}, {s['via']})"
+        cls.update({"api:" + api, f"normalized={normalized}"})
+        if api == "weaver_chain":
+            if chain is None:
+                chain = Weaver(np.array(axes[0]["x"], dtype=float), np.array(axes[0]["ys"][0], dtype=float))
+            pre = s.get("pre")
+            if pre is not None:
+                getattr(chain, pre["op"])(pre["v"])
+                cls.add("chain-pre:" + pre["op"])
+            n = len(axes[0]["x"])
+            cx, cy = (a.copy() for a in weaver_series(chain, n, "get", "chain"))
+            chain.trend(f, normalized=normalized)
+            gx, gy = weaver_series(chain, n, "get", "chain")
+            want, scale = trend_oracle(cx.tolist(), cy.tolist(), f_spec, normalized)
+            check_values(as_float_array(gy, n, "chain y"), want, scale, what)
+            check_x_untouched(gx, cx.tolist(), what)
+            continue
+        ax = axes[s["axis"]]
+        x, y = ax["x"], ax["ys"][s["y"]]
+        n = len(x)
+        if s["via"] == "shared":
+            if n not in shared:
+                shared[n] = (np.empty(n), np.empty(n))
+            xin, yin = shared[n]
+            xin[:] = x                           # the same array objects as before, new contents
+            yin[:] = y
+        elif s["via"] == "list":
+            xin, yin = [float(v) for v in x], [float(v) for v in y]
+        else:
+            xin, yin = np.array(x, dtype=float), np.array(y, dtype=float)
+        xk, yk = copy.deepcopy(xin), copy.deepcopy(yin)
+        spec = f_spec
+        if api == "trend":
+            xr, yr = pair(process.trend(xin, yin, f, normalized=normalized), n, api)
+        elif api == "linear_trend":
+            spec = lin_spec
+            xr, yr = pair(process.linear_trend(xin, yin, case["a"], normalized), n, api)
+        else:
+            w = Weaver(xin, yin)
+            w.trend(f, normalized=normalized)
+            xr, yr = weaver_series(w, n, "get", "working")
+        xr, yr = as_float_array(xr, n, what + " x"), as_float_array(yr, n, what + " y")
+        want, scale = trend_oracle(x, y, spec, normalized)
+        check_values(yr, want, scale, what, detail=dict(step=k))
+        check_x_untouched(xr, x, what)
+        if not (same_input(xin, xk) and same_input(yin, yk)):
+            raise Violation(f"{what} modified the caller's arrays")
+        # scribble on the result: nothing handed out earlier may be handed out (or used) again
+        if isinstance(yin, list) or not np.shares_memory(yr, yin):
+            yr.fill(1e300)
+        if isinstance(xin, list) or not np.shares_memory(xr, xin):
+            xr.fill(-1e300)
+        if api != "linear_trend":
+            used.add((s["axis"], normalized))
+        cls.update({"via:" + s["via"], "axis:" + ax["kind"]})
+        if s["repeat"]:
+            cls.add("repeat-same-objects")
+    naxes = len({a for a, _ in used})
+    cls.add(f"axes-with-same-callable={min(naxes, 3)}{'+' if naxes > 3 else ''}")
+    ctx.record(case, cls, nontrivial=naxes >= 2 and f_spec["kind"] != "const")
+
+
+# ---- 8. normalize called repeatedly on look-alike arrays ---------------------------------------------------------------------
+
+@st.composite
+def normalize_seq_case(draw, ctx):
+    n = draw(st.integers(3, ctx.pick(24, 60)))
+    lo_v, hi_v = draw(fl(-100.0, 0.0)), draw(fl(1.0, 100.0))
+    first, last = draw(st.sampled_from([(lo_v, hi_v), (hi_v, lo_v), (0.5, 0.75)]))
+    arrays = []
+    for _ in range(draw(st.integers(2, 4))):
+        inner = draw(st.lists(fl(lo_v, hi_v), min_size=n, max_size=n))
+        inner[0], inner[-1] = first, last
+        inner[draw(st.integers(1, n - 2))] = lo_v if n > 3 else inner[1]     # same min / max in every array
+        if n > 3:
+            j = draw(st.integers(1, n - 2))
+            if inner[j] != lo_v:
+                inner[j] = hi_v
+        arrays.append(inner)
+    steps = [dict(a=draw(st.integers(0, len(arrays) - 1)), via=draw(st.sampled_from(["shared", "fresh", "shared"])),
+                  target=draw(st.integers(0, 1))) for _ in range(draw(st.integers(3, 8)))]
+    return dict(arrays=arrays, steps=steps, targets=[draw(target_range()), draw(target_range())])
+
+
+def normalize_seq_body(ctx, case):
+    n = len(case["arrays"][0])
+    shared = np.empty(n)
+    cls = set()
+    for k, s in enumerate(case["steps"]):
+        vals = case["arrays"][s["a"]]
+        t = case["targets"][s["target"]]
+        if min(vals) == max(vals):
+            ctx.count("constant-skipped")
+            continue
+        if s["via"] == "shared":
+            shared[:] = vals
+            ain = shared
+        else:
+            ain = np.array(vals, dtype=float)
+        res = process.normalize(ain, t["lo"], t["hi"])
+        count_margins(ctx, *check_normalised(vals, res, t["lo"], t["hi"], f"step {k}: normalize"))
+        if ain.tolist() != vals:
+            raise Violation(f"step {k}: normalize modified its input")
+        if not np.shares_memory(res, ain):
+            res.fill(1e300)
+        cls.update({"via:" + s["via"], "range:" + t["kind"]})
+    ctx.record(case, cls, nontrivial=len({s["a"] for s in case["steps"]}) >= 2)
+
+
 SUBCHECKS = [
-    Sub("trend", "hyp", trend_body, strategy=trend_case, quick=500, thorough=10000,
+    Sub("trend", "hyp", sticky(trend_body), strategy=trend_case, quick=500, thorough=10000,
         clause="process.trend / linear_trend add f(x_i) resp. f(x_i/(x_last-x_first)); x and the caller's arrays "
                "untouched; zero trend is the identity"),
-    Sub("additive", "hyp", additive_body, strategy=additive_case, quick=500, thorough=10000,
+    Sub("additive", "hyp", sticky(additive_body), strategy=additive_case, quick=500, thorough=10000,
         clause="trends add up: trend(g) after trend(f) == trend(f+g) == y + f + g (process and Weaver level)"),
-    Sub("weaver_trend", "hyp", weaver_trend_body, strategy=weaver_trend_case, quick=500, thorough=10000,
+    Sub("weaver_trend", "hyp", sticky(weaver_trend_body), strategy=weaver_trend_case, quick=500, thorough=10000,
         clause="Weaver.trend: same closed form; x, reference, original and caller arrays untouched"),
-    Sub("shift_scale", "hyp", shift_scale_body, strategy=shift_scale_case, quick=500, thorough=10000,
+    Sub("shift_scale", "hyp", sticky(shift_scale_body), strategy=shift_scale_case, quick=500, thorough=10000,
         clause="shift_x/shift_y/scale_x/scale_y act as x+s, y+s, c*x, c*y (bitwise) on working and reference series "
                "after every step of a 1..5 step program; original and caller arrays untouched"),
-    Sub("normalize", "hyp", normalize_body, strategy=normalize_case, quick=500, thorough=10000,
+    Sub("normalize", "hyp", sticky(normalize_body), strategy=normalize_case, quick=500, thorough=10000,
         clause="process.normalize: min -> min_val exactly, max -> max_val (2 ulp), order and relative spacing kept"),
-    Sub("weaver_normalize", "hyp", weaver_normalize_body, strategy=weaver_normalize_case, quick=500, thorough=10000,
+    Sub("weaver_normalize", "hyp", sticky(weaver_normalize_body), strategy=weaver_normalize_case, quick=500, thorough=10000,
         clause="Weaver.normalize_x/_y: the same properties for working and reference series, other coordinate "
                "untouched"),
+    Sub("same_callable", "hyp", sticky(same_callable_body), strategy=same_callable_case, quick=200, thorough=4000,
+        clause="every call is judged by the closed form on ITS axis: one callable object applied in sequence to axes "
+               "sharing length and end points but not the interior spacing, to caller arrays edited in place, to "
+               "the same objects twice after scribbling on the first result, and repeatedly to one long-lived Weaver"),
+    Sub("normalize_seq", "hyp", sticky(normalize_seq_body), strategy=normalize_seq_case, quick=200, thorough=3000,
+        clause="normalize is a function of its arguments only: repeated calls on arrays sharing length, first/last "
+               "element, minimum and maximum (same object edited in place or fresh) each satisfy the normalise clause"),
 ]
